@@ -1,7 +1,7 @@
 -------------------------------- MODULE MCCsdo --------------------------------
 EXTENDS CoCsdoGen
 Sizes == {1, 4, 5, 7, 8, 14, 15}
-SizesQ == {1, 4, 5, 8, 15}
+SizesQ == {1, 4, 5, 8, 14, 15}
 LC == {<<"up", z, t>> : z \in Sizes, t \in {2, 3}} \cup {<<"down", z, t, 10>> : z \in Sizes, t \in {2, 3}} \cup {<<"up", 4, 0>>, <<"down", 8, 0, 10>>}
       \cup {<<"srv", k>> : k \in {"ok", "abort", "abortx", "toggle", "cmd", "size", "mux"}} \cup {<<"tick">>}
 LCQ == {<<"up", z, 2>> : z \in SizesQ} \cup {<<"down", z, 3, 10>> : z \in SizesQ} \cup {<<"up", 8, 3>>}
@@ -10,6 +10,6 @@ PC == << <<"state">>, <<"pool">>, <<"tick">>, <<"tick">>, <<"tick">>, <<"tick">>
          <<"up", 4, 5>>, <<"pool">>, <<"tick">>, <<"tick">>, <<"tick">>, <<"tick">>, <<"srv", "ok">>, <<"pool">>, <<"ubuf">>, <<"down", 5, 0, 40>>, <<"srv", "ok">>, <<"srv", "ok">>, <<"state">>, <<"pool">> >>
 LC20 == {<<"up", 4, 3>>, <<"up", 8, 2>>, <<"down", 8, 3, 10>>, <<"srv", "ok">>, <<"srv", "abort">>, <<"tick">>, <<"reset", 130>>, <<"reset", 129>>}
 PC20 == << <<"reset", 130>>, <<"state">>, <<"pool">>, <<"tick">>, <<"tick">>, <<"tick">>, <<"tick">>, <<"state">>, <<"up", 4, 5>>, <<"srv", "ok">>, <<"pool">>, <<"ubuf">> >>
-Big == {<<"up", z, 3>> : z \in {255, 256, 263, 264, 2000}} \cup {<<"down", z, 3, 7>> : z \in {255, 256, 263, 264, 2000}}
+Big == {<<"up", z, 3>> : z \in {21, 28, 255, 256, 259, 263, 264, 2000}} \cup {<<"down", z, 3, 7>> : z \in {21, 28, 255, 256, 259, 263, 264, 2000}}
 ASSUME ScenOn => \A l \in Big : PrintT(<<"BEH", ToJson(Scenario(l))>>)
 ===============================================================================
